@@ -203,11 +203,17 @@ impl<'a> Tokenizer<'a> {
                 None => break,
             }
         }
-        match Decimal::from_str(&self.input[start..self.current()]) {
+        let text = &self.input[start..self.current()];
+        // Decimal::from_str stops looking at the text once the 96-bit mantissa is full, so
+        // "0.1234567890123456789012345678.." or "...e5" would be accepted: check the shape here
+        let (int, frac) = text.split_once('.').unwrap_or((text, ""));
+        let is_digits = |part: &str| part.bytes().all(|b| b.is_ascii_digit());
+        if int.is_empty() || !is_digits(int) || !is_digits(frac) {
+            return Err(Error::InvalidNumber(text.to_string()));
+        }
+        match Decimal::from_str(text) {
             Ok(val) => Ok(Token::Number(val, Span(start, self.current()))),
-            Err(_) => Err(Error::InvalidNumber(
-                self.input[start..self.current()].to_string(),
-            )),
+            Err(_) => Err(Error::InvalidNumber(text.to_string())),
         }
     }
 
